@@ -33,6 +33,10 @@ let xl (f : string) (a : string list) : string =
   | "pextGeneric", [x; m] -> opt (xl_mathext_pextGeneric (z x) (z m))
   | "maxFragmentSizeInternal", [mtu; t] -> zs (xl_protocol_maxFragmentSizeInternal (z mtu) (z t))
   | "maxPaddingSize", [mtu; t; fs; ex] -> zs (xl_protocol_maxPaddingSize (z mtu) (z t) (z fs) (z ex))
+  | "buildLowEntropyParams", [m] -> let ((c, w), e) = xl_protocol_buildLowEntropyParams (z m) in zs c ^ " " ^ zs w ^ " " ^ bool_s e
+  | "lowEntropyEncodedPayloadLen", [n; m] ->
+    (match xl_protocol_lowEntropyEncodedPayloadLen (z n) (z m) with None -> "NONE" | Some (v, e) -> zs v ^ " " ^ bool_s e)
+  | "maxFragmentSize", [mtu; t; m] -> let (v, e) = xl_protocol_maxFragmentSize (z mtu) (z t) (z m) in zs v ^ " " ^ bool_s e
   | "isSessionProtocol", [p] -> bool_s (xl_protocol_isSessionProtocol (z p))
   | "isDataProtocol", [p] -> bool_s (xl_protocol_isDataProtocol (z p))
   | "isAckProtocol", [p] -> bool_s (xl_protocol_isAckProtocol (z p))
@@ -58,6 +62,16 @@ let model (f : string) (a : string list) : string =
   | "maxFragmentSizeInternal", [mtu; t] -> if small mtu then zs (m_max_fragment_internal (z mtu) (z t)) else "-"
   | "maxPaddingSize", [mtu; t; fs; ex] ->
     if small mtu && small fs && small ex then zs (m_max_padding (z mtu) (z t) (z fs) (z ex)) else "-"
+  | "buildLowEntropyParams", [m] ->
+    (* C17's table (source bytes, one-bits) and C14's (source bytes) must both agree with the source *)
+    (match m_mode_params (z m), m_src_bytes (z m) with
+     | Some (c, w), Some sb -> if c = sb then zs c ^ " " ^ zs w ^ " 0" else "models-disagree"
+     | None, None -> "0 0 1"
+     | _ -> "models-disagree")
+  | "lowEntropyEncodedPayloadLen", [n; m] ->
+    if small n then (match m_le_encoded_len (z n) (z m) with Some v -> zs v ^ " 0" | None -> "0 1") else "-"
+  | "maxFragmentSize", [mtu; t; m] ->
+    if small mtu then (match m_max_fragment (z mtu) (z t) (z m) with Some v -> zs v ^ " 0" | None -> "0 1") else "-"
   | "isSessionProtocol", [p] -> if below p p64 then bool_s (m_wire_is_session (nz p)) else "-"
   | "isDataProtocol", [p] -> if below p p64 then bool_s (m_wire_is_data (nz p)) else "-"
   | "isAckProtocol", [p] -> if below p p64 then bool_s (m_wire_is_ack (nz p)) else "-"
